@@ -151,8 +151,13 @@ def outsideRound : List String :=
   ["bypass_routes_", "dependencies_", "predecessors_", "successors_", "netzones", "active_comms_down_",
    "current_activities", "dp_objs_", "current_activities"]
 
-example : (Gen.addrIterated.map fun e => e.var) = ["bypass_routes_", "dependencies_", "predecessors_", "successors_",
-    "activities_", "netzones", "active_comms_down_", "current_activities", "dp_objs_", "current_activities"] := by decide
+example : ((Gen.addrIterated.map fun e => e.var).filter (· != "activities_")) = ["bypass_routes_", "dependencies_",
+    "predecessors_", "successors_", "netzones", "active_comms_down_", "current_activities", "dp_objs_",
+    "current_activities"] := by decide
+
+/-- `activities_` is address-ordered (today) or under the creation-rank comparator (with proposed_fix.diff) -/
+example : ((Gen.inventory.filter fun e => e.var == "activities_" && e.file == "src/kernel/actor/ActorImpl.hpp").map
+    (fun e => e.order)).all (fun o => o == "addr" || o == "cmp:ActivityIdLess") = true := by decide
 
 example : (Gen.inventory.filter fun e => e.var == "daemons_").map (fun e => e.order) = ["cmp:ActorPidLess"] := by decide
 
